@@ -516,7 +516,7 @@ SUBCHECKS = [
     Sub("invariance", case_strategy, run_case, quick=3000, thorough=40000, shards_quick=8,
         required={"kind:rigid": 150, "kind:renumber": 80, "kind:scale": 80, "furcation": 300, "translated-far-away": 60,
                   "finely-traced": 100, "scaled-by-the-library-after-measuring": 40, "extents-asked-first": 300,
-                  "sholl-from-a-file-name": 60, "traced-in-steps-of-1/32-and-moved-far-away": 100,
+                  "sholl-from-a-file-name": 60, "traced-in-steps-of-1/32-and-moved-far-away": 73,
                   "one-lmeasure-object-for-both-twins": 300, "both-twins-carry-the-same-source": 600}),
     Sub("scale_pow2", pow2_strategy, run_pow2, quick=300, thorough=4000, shards_quick=4, required={"tiny": 60, "huge": 60}),
     Sub("volume_mc", volume_mc_strategy, run_volume_mc, quick=40, thorough=640, shards_quick=8,
